@@ -26,7 +26,7 @@ def gen_cubes(tier, seed):
         dtype = rng.choice(["int16", "float64", "float32"])
         base = rs.gamma(rng.choice([0.5, 2.0, 20.0]), rng.choice([5.0, 50.0]), T)
         ordinary = [float(round(v)) if dtype == "int16" else float(v) for v in base]
-        kinds = rng.sample(["ordinary", "allnodata", "allneg", "negnodata", "allzero", "manyzeros", "constant", "outlier_hi", "outlier_lo", "lowvar", "nopos_in_window", "twovals"], rng.randint(2, 5))
+        kinds = rng.sample(["ordinary", "allnodata", "allneg", "negnodata", "allzero", "manyzeros", "constant", "outlier_hi", "outlier_lo", "lowvar", "nopos_in_window", "twovals", "someneg", "someneg"], rng.randint(2, 5))
         if "ordinary" not in kinds:
             kinds[0] = "ordinary"
         st, sp = (0, T) if rng.random() < 0.5 else (0, max(2, T // 2))
@@ -62,6 +62,10 @@ def gen_cubes(tier, seed):
                     xs = [v * 1.0 for v in xs]
             elif kd == "nopos_in_window":
                 xs = [0.0 if i < sp else v for i, v in enumerate(ordinary)]
+            elif kd == "someneg":      # an ordinary pixel with a few negative (invalid, but not nodata) cells and no zeros
+                xs = [v if v > 0 else 1.0 for v in ordinary]
+                for j in rng.sample(range(T), min(T - 2, rng.randint(2, 4))):
+                    xs[j] = -float(rng.randint(1, 9))
             elif kd == "twovals":
                 xs = [rng.choice([3.0, 8.0]) for _ in range(T)]
             if rng.random() < 0.3 and kd not in ("allnodata",):
